@@ -12,7 +12,7 @@ RULE = ("approximate_{pubo,qubo,puso,quso}_extrema on raw dicts (unsorted / repe
         "(dict and model objects) with admissible probability pairs including 0 and equal values, variable-free "
         "models, and (flagged class) stale models. Oracle: exact extrema from the reference truth table. "
         "Non-trivial = model with >= 2 variables and >= 2 non-constant terms; distinct = digest of (function, type, terms)"
-        ' Also: full-matrix style dicts with diagonal keys and both orientations, models scaled by 2^-70, exact-arithmetic coefficients (ints above 2^53, thirds, sevenths), single-scale models with two-digit equal probabilities, plain dicts whose variable-carrying terms cancel under two spellings, a second look after in-place edits.')
+        ' Also: the documented keyword spelling of the argument, a refused call (a coefficient that is no number, put right afterwards) before the valid one, long raw spellings of monomials, full-matrix style dicts with diagonal keys and both orientations, models scaled by 2^-70, exact-arithmetic coefficients (ints above 2^53, thirds, sevenths), single-scale models with two-digit equal probabilities, plain dicts whose variable-carrying terms cancel under two spellings, a second look after in-place edits.')
 TIERS = {"quick": {"shards": 8, "cases": 6000}, "thorough": {"shards": 16, "cases": 50000}}
 FLOOR_BASE = {"quick": 500, "thorough": 20000}    # case counts the floors below were calibrated for; the launcher scales them
 FN = {"approximate_pubo_extrema": ("bool", False), "approximate_qubo_extrema": ("bool", True),
@@ -26,7 +26,7 @@ def FLOORS(tier):
     f = {"temperature-range-calls": 600 if q else 20000, "temperature:no-variables": 40, "temperature:zero-prob": 80,
          "temperature:equal-probs": 40, "constant-model": 60, "raw-repeated-labels": 40, "real-coefficients": 150,
          "temperature:stale-model": 20, "second-look-checks": 500 if q else 20000, "second-look:cancel-all": 40, "second-look:clear": 40, "exact-arithmetic": 100,
-         "dict-with-zero-coefficients": 60, "temperature:dict-with-zero-coefficients": 20, "raw-diagonal-keys": 100, "tiny-scale": 150, "many-terms": 4, "temperature:alias-spellings-cancel": 10,
+         "dict-with-zero-coefficients": 60, "temperature:dict-with-zero-coefficients": 20, "raw-diagonal-keys": 100, "refused-call-first": 300, "called-by-keyword": 500, "raw-long-spellings": 100, "tiny-scale": 150, "many-terms": 4, "temperature:alias-spellings-cancel": 10,
          "temperature:single-scale-model": 80}
     for fn in FN:
         f["fn:" + fn] = 300 if q else 15000
@@ -74,6 +74,9 @@ def exact_case(ctx, rng):
         ctx.nontrivial(("exact", fn, tn, sorted(map(repr, m.items()))))
 
 
+KWNAME = {"approximate_pubo_extrema": "P", "approximate_qubo_extrema": "Q", "approximate_puso_extrema": "H", "approximate_quso_extrema": "L"}
+
+
 def case(ctx, rng, idx):
     r0 = rng.random()
     if r0 < 0.06:
@@ -111,6 +114,21 @@ def case(ctx, rng, idx):
             for k, v in items:
                 terms.setdefault(k, v)
             ctx.cat("raw-diagonal-keys")
+        if raw and rng.random() < 0.3:
+            # longer spellings of the same monomials: a boolean label repeated (x*x = x), a pair of equal spins inserted (z*z = 1)
+            t2 = {}
+            for k, v in terms.items():
+                k = list(k)
+                if k and rng.random() < 0.6:
+                    if kind == "bool":
+                        k.append(rng.choice(k))
+                    else:
+                        y_ = rng.choice(labs)
+                        k += [y_, y_]
+                    rng.shuffle(k)
+                t2.setdefault(tuple(k), v)
+            terms = t2
+            ctx.cat("raw-long-spellings")
         if raw and any(len(set(k)) < len(k) for k in terms):
             ctx.cat("raw-repeated-labels")
     if not real and tn == "dict" and not d2 and rng.random() < 0.03:
@@ -136,7 +154,28 @@ def case(ctx, rng, idx):
     p = ref.from_raw(kind, dict(m))
     w = {"function": fn, "type": tn, "terms": dict(m)}
     snap = dict(m)
-    ok, res = ctx.call(fn, getattr(L.utils, fn), m, _w=w)
+    if len(m) and rng.random() < 0.12:
+        # a call that must be refused comes first (a coefficient that is no number, put right afterwards): the later,
+        # valid call on the same object must not be affected by what the failed one left behind
+        k_bad = rng.choice(list(m))
+        good = m[k_bad]
+        try:
+            dict.__setitem__(m, k_bad, None)
+            try:
+                getattr(L.utils, fn)(m)
+            except Exception:   # noqa
+                ctx.cat("refused-call-first")
+        finally:
+            dict.__setitem__(m, k_bad, good)
+        if list(m.items()) != list(snap.items()):
+            ctx.violation(fn + ":model-changed-by-a-refused-call", "after a refused call (coefficient None, restored afterwards) the argument is %r, was %r" % (dict(m), snap), w)
+            return
+    if rng.random() < 0.2:
+        # the documented parameter name
+        ok, res = ctx.call(fn, getattr(L.utils, fn), _w=w, **{KWNAME[fn]: m})
+        ctx.cat("called-by-keyword")
+    else:
+        ok, res = ctx.call(fn, getattr(L.utils, fn), m, _w=w)
     if not ok:
         return
     ctx.cat("fn:" + fn)
